@@ -582,3 +582,29 @@ Example C03_late_bound_example :
   map_sig (lower_sig 100 doms') (map_sig (ren_sig 100 [(3%nat, 2%nat)]) e)
     = EOp2 OAdd (ESig 7 (Sh 1 false)) (EConst 0 (Sh 1 false)).
 Proof. split; reflexivity. Qed.
+
+(* ---------------------------------------------------------------------------------------------------------------
+   Scoping of domains over the hierarchy and DomainLowerer's resolution of late-bound signals (Model/DomScope.v,
+   proofs Proofs/DomScopeP.v).  `lower` is the visitor as written (mutable table, subfragments visited before the
+   fragment's own statements, table restored on exit); `scoped` resolves each use in the table of its own fragment;
+   `innermost` is "the innermost enclosing definition" on the tree the user wrote. *)
+From V.Model Require DomScope.
+From V.Proofs Require DomScopeP.
+
+Theorem C03_lowerer_resolves_in_own_fragment : forall t st,
+  DomScope.lower t st = (DomScope.scoped t, st).
+Proof. exact DomScopeP.lower_scoped. Qed.
+Print Assumptions C03_lowerer_resolves_in_own_fragment.
+
+Theorem C03_prepare_resolves_innermost_definition : forall top,
+  DomScope.prepare_resolve top = DomScope.innermost nil top.
+Proof. exact DomScopeP.prepare_resolve_innermost. Qed.
+Print Assumptions C03_prepare_resolves_innermost_definition.
+
+(* non-vacuity / the defect that was repaired (finding C03-domain-lowerer-leaks-subfragment-domains): without the
+   restore the parent's ClockSignal resolves to the domain its subfragment defines under the same name *)
+Theorem C03_lowerer_without_restore_refuted :
+  DomScope.prepare_resolve_leaky DomScopeP.leak_witness = (Some 11 :: Some 11 :: nil)%nat /\
+  DomScope.innermost nil DomScopeP.leak_witness = (Some 10 :: Some 11 :: nil)%nat.
+Proof. exact DomScopeP.lower_leaky_refuted. Qed.
+Print Assumptions C03_lowerer_without_restore_refuted.
